@@ -1969,7 +1969,7 @@ func b01Str(b bool) string {
 
 // f1CffFileClass: whether OpenType/CFF fonts take part in the font.file stream (needs the CFF
 // flavour of the byte-level model in the driver)
-var f1CffFileClass = false
+var f1CffFileClass = true
 
 // f1LayoutArgs: cmap subtables and the encoded layout tables of a font.file line
 func f1LayoutArgs(font *sfnt.Font) string {
@@ -2060,7 +2060,11 @@ func f1EmitFont(c *Ctx, rec f1FontRecipe, withDerive bool) {
 	}
 	if extra, ok := f1FileArgs(rec.font); ok {
 		c.Case(Verdict, "font.file", args+" "+extra, true)
-		c.Stat("font.file class", "TrueType, cmap="+b01Str(rec.font.CMapTable != nil)+" names="+b01Str(rec.font.Outlines.(*glyf.Outlines).Names != nil)+" layout="+b01Str(rec.font.Gsub != nil || rec.font.Gpos != nil || rec.font.Gdef != nil))
+		if g, ok := rec.font.Outlines.(*glyf.Outlines); ok {
+			c.Stat("font.file class", "TrueType, cmap="+b01Str(rec.font.CMapTable != nil)+" names="+b01Str(g.Names != nil)+" layout="+b01Str(rec.font.Gsub != nil || rec.font.Gpos != nil || rec.font.Gdef != nil))
+		} else {
+			c.Stat("font.file class", "CFF (table bytes opaque), cmap="+b01Str(rec.font.CMapTable != nil)+" layout="+b01Str(rec.font.Gsub != nil || rec.font.Gpos != nil || rec.font.Gdef != nil))
+		}
 	}
 	f1EmitFixed(c, args)
 	reps := 3
